@@ -55,7 +55,12 @@ TReq == /\ IsEvent("Req")
            /\ carmap' = CarNext(Ev.o, last'.r)
            /\ dev' = dev \cup {d \in MDevs : last'.r # AsBuiltT(Ev.q, tags, Ev.star, MDevs \ {d})}
 
-TNext == TPublish \/ TReq
+\* a new client session: fresh name system and an empty client cache (the CAR suffix bijection spans sessions)
+TReset == /\ IsEvent("Reset")
+          /\ pub' = [n \in Names |-> 1] /\ cache' = {} /\ last' = NoLast /\ steps' = 0
+          /\ UNCHANGED <<dev, carmap>>
+
+TNext == TPublish \/ TReq \/ TReset
 TSpec == TInit /\ [][TNext]_tvars
 
 \* a 304 never makes the client re-use a stored response that is not the current representation
